@@ -83,6 +83,7 @@ inductive SOp where
   | clear                                               -- gaps.Clear() (start of getDifference)
   | seq (calls : List SCall) (x : Int) (direct : List Entry)
       -- a branch of getDifference: `direct` is dispatched without the box, position `x` is set
+  | fire                                                -- the gap timer fired (`<-gapTimeout.C`)
   deriving DecidableEq, Repr
 
 def sstep (c : ACfg) (b : Box) : SOp → Box × List SEv
@@ -91,6 +92,7 @@ def sstep (c : ACfg) (b : Box) : SOp → Box × List SEv
   | .seq calls x direct =>
     ({ b with state := if calls.contains .setBox then x else b.state },
      callEvs x (direct.map (·.id)) calls)
+  | .fire => ({ b with armed := false }, [])
 
 def srun (c : ACfg) (b : Box) : List SOp → Box × List SEv
   | [] => (b, [])
@@ -139,6 +141,8 @@ def tiled (c : Int) : List Entry → Bool
 def diffShape : List SCall := [.dispatch, .store, .setBox]
 def emptyShape : List SCall := [.store, .setBox]
 def tooLongShape : List SCall := [.cb, .store, .setBox]
+/-- `channelState.handleTooLong` beyond the difference limit: only the callback. -/
+def cbOnlyShape : List SCall := [.cb]
 
 /-- Well-formedness of an op in box state `b`: a push is a log entry, or a count-0 marker at a
 positive position (an affected result that covers no position); a difference branch has one of the
@@ -147,12 +151,14 @@ three shapes, and (honest server, complete routing) a difference that sets posit
 def wfOp (log : List Entry) (mk : Nat → Bool) (b : Box) : SOp → Bool
   | .push e => decide (e ∈ log) || (decide (e.count = 0) && decide (0 < e.pos) && mk e.id)
   | .clear => true
+  | .fire => true
   | .seq calls x direct =>
-    (decide (calls = diffShape) &&
+    direct.all (fun e => decide (e ∈ log)) &&
+    ((decide (calls = diffShape) &&
         log.all fun e => !(decide (b.state < e.pos) && decide (e.pos ≤ x)) || mk e.id || decide (e ∈ direct))
     || (decide (calls = emptyShape) &&
         log.all fun e => !(decide (b.state < e.pos) && decide (e.pos ≤ x)) || mk e.id)
-    || decide (calls = tooLongShape)
+    || decide (calls = tooLongShape) || decide (calls = cbOnlyShape))
 
 def wfRun (c : ACfg) (log : List Entry) (b : Box) : List SOp → Bool
   | [] => true
